@@ -10,6 +10,8 @@ SPEC = {
              "with the 2^32 wrap point at every stream offset; state = (relative delivery point, relative chunk map, counters) "
              "x model coverage mask; invariants on every transition: delivered = s[0:k] with k the contiguous arrived prefix, "
              "no chunk at or below k, chunk bytes = stream bytes, total_buffered_bytes = sum of chunk sizes. "
+             "Level d: the legacy follower with BOTH directions of one connection interleaved (client and server segments over <= 4 (thorough 5) "
+             "positions each, four ISN pairs incl. wrap and either order), each direction judged against its own model. "
              "distinct_nontrivial = distinct product states holding >= 1 out-of-order chunk."),
     "technique": "explicit-state BFS to fixpoint over the implementation with lock-step reference model",
     "claim": ("Every reachable (implementation, model) product state for streams of L bytes, every ISN of a wrap-covering set and "
